@@ -89,7 +89,9 @@ template <class E> Segment c18SeqSegment(long nQ, long nT) {
         if (kk % 3 == 0) {
             using K = TbfInteractionCounter<typename E::PolyKernel>;
             PolyRun<E, K> pr; pr.build(c);
-            auto algo = std::make_unique<TbfAlgorithm<Real, K, typename E::Space>>(*pr.cfg, c.upper);
+            // every other case: the executor is given a (fresh, unused) user-built counter kernel instead of building its own
+            const K userKernel(*pr.cfg);
+            auto algo = (kk % 2) ? std::make_unique<TbfAlgorithm<Real, K, typename E::Space>>(*pr.cfg, userKernel, c.upper) : std::make_unique<TbfAlgorithm<Real, K, typename E::Space>>(*pr.cfg, c.upper);
             algo->execute(*pr.tree);
             if (!(snapshotTree<E>(*pr.tree, N) == ref)) res.fail("c18:wrapped-results-differ", "counter<P-poly> vs P-poly");
             mergeAndCheck<decltype(*algo), K>(*algo, e, 1, r, res, "c18", "after one execute");
